@@ -4,6 +4,7 @@ package main
 // error in bounded time (no proof, no panic, no hang).
 
 import (
+	"os"
 	"fmt"
 	"math/big"
 	"strings"
@@ -230,13 +231,13 @@ func runC03(args []string) int {
 	for si, sp := range specs {
 		for _, be := range []string{"groth16", "plonk"} {
 			ids := []ecc.ID{ecc.BN254, curves[1+(si+ci)%6]}
-			if o.Thorough() {
+			if o.AllCurves() {
 				ids = curves
 			}
 			ci++
 			for _, id := range ids {
 				oss := optsets[:1]
-				if id == ecc.BN254 && (si < 8 || o.Thorough()) {
+				if (id == ecc.BN254 && (si < 8 || o.Thorough())) || (os.Getenv("VERIF_ALL_CURVES") != "" && si < 3) {
 					oss = optsets
 				}
 				for _, os := range oss {
